@@ -54,6 +54,12 @@ package peers
 //@   requires n >= 1 && f >= 0 && 3*f < n && 3*sm > 2*n && 3*(sm-1) <= 2*n
 //@   ensures[majority] sm > 2*f
 
+// C18: among l >= super-majority famous witnesses of an n-validator round with f < n/3 liars, fewer than half lie
+// (the hypothesis 2f < l of common.median_bft)
+//@ lemma liars_below_half(n int, f int, sm int, l int)
+//@   requires n >= 1 && f >= 0 && 3*f < n && 3*sm > 2*n && 3*(sm-1) <= 2*n && l >= sm
+//@   ensures[half] 2*f < l
+
 //@ lemma trusted_has_honest(n int, f int, tc int, s int)
 //@   requires n >= 1 && f >= 0 && 3*f < n && (forall t int :: t > tc ==> 3*t > n) && s > tc
 //@   ensures[honest] s > f
